@@ -376,6 +376,9 @@ class ProxySuite(Suite):
                         got += cc.sstr_bytes(step[1]).decode()
                     if TBOT_PROMPT.decode() in data:
                         fails.append(f"{step!r} returned the shell prompt as data: {data!r}")
+                    elif any(TBOT_PROMPT[j:].decode() in data for j in range(1, 8)):
+                        # the head of the prompt was swallowed silently by an earlier operation (e.g. a read-back)
+                        fails.append(f"{step!r} returned the shell prompt minus its first bytes as data: {data!r}")
                 elif r[0] == 7:
                     got += r[3] + bytes(r[2]).decode() + r[4]
         terminated = term_ok
